@@ -595,6 +595,38 @@ def empty_results_are_per_evaluation(col):
                       % (got, got.ok and got.value[0] is got.value[1]), None)
 
 
+def aggregator_object_in_both_roles_and_type_keys(col):
+    """(1) one aggregator object used as a plain reduction and as a Group leaf, in either order and again: a plain use folds
+    its target, a leaf use folds each bucket.  (2) grouping items that include classes by `type`: the bucket key `type` (the
+    class of a class) is a key like any other"""
+    from glom import Sum, Flatten
+    from glom.reduction import Count
+    for name, mk, items, plain_want, leaf_want in (
+            ('Sum', lambda: Sum(), [1, 2, 3], 6, {1: 4, 0: 2}), ('Count', lambda: Count(), [1, 2, 3], 3, {1: 2, 0: 1})):
+        for order in (('plain', 'leaf', 'plain', 'leaf'), ('leaf', 'plain', 'leaf')):
+            agg = mk()
+            for i, role in enumerate(order):
+                got = call(G, items, agg) if role == 'plain' else call(G, items, Group({T % 2: agg}))
+                want = plain_want if role == 'plain' else leaf_want
+                col.case(('both-roles', name, order, i), True)
+                col.count('glom_evaluations')
+                if not got.ok or got.value != want:
+                    col.violation('C16/aggregator-object-remembers-an-earlier-role', 'one %s object used as %s: use #%d (%s) gave %r, expected %r'
+                                  % (name, ' then '.join(order), i + 1, role, got, want), None)
+                    break
+    items = [1, int, 'a', str, 2.5, float, 2]
+    for desc, spec, want in (('{type: [T]}', Group({type: [T]}), {int: [1, 2], type: [int, str, float], str: ['a'], float: [2.5]}),
+                             ('{type: Count()}', Group({type: Count()}), {int: 2, type: 3, str: 1, float: 1}),
+                             ('{callable: {type: [T]}}', Group({callable: {type: [T]}}), {False: {int: [1, 2], str: ['a'], float: [2.5]}, True: {type: [int, str, float]}})):
+        for n in (1, 2):
+            got = call(G, items, spec)
+            col.case(('type-keys-with-classes', desc, n), True)
+            col.count('glom_evaluations')
+            if not got.ok or got.value != want or list(got.value) != list(want):
+                col.violation('C16/grouping-by-type-with-class-items', 'Group(%s) over %r (evaluation #%d): %r, a loop gives %r' % (desc, items, n, got, want), None)
+                break
+
+
 def run(ctx):
     col, rng = ctx.col, ctx.rng
     col.require('glom_evaluations', 1000)
@@ -606,5 +638,6 @@ def run(ctx):
         nested_in_aggregator(col, rng)
         partial_orders(col)
         empty_results_are_per_evaluation(col)
+        aggregator_object_in_both_roles_and_type_keys(col)
     for i in range(ctx.n(3000, 30000)):
         one_case(col, rng)
